@@ -3,12 +3,12 @@ from . import excel_rules as E
 
 
 def run(cx):
-    E.exc_discipline(cx, E.BEADS, ['beads_samples', 'mef_transform_fxns', 'mef_outputs'], flag_dicts=('mef_outputs',))
-    E.exc_discipline(cx, E.SAMPLES, ['samples'])
+    E.exc_discipline(cx, E.BEADS)
+    E.exc_discipline(cx, E.SAMPLES)
     E.fault_table(cx)
     E.units_dispatch(cx)
-    E.loop_independence(cx, E.BEADS, ['beads_samples', 'mef_transform_fxns', 'mef_outputs'])
-    E.loop_independence(cx, E.SAMPLES, ['samples'])
+    E.loop_independence(cx, E.BEADS)
+    E.loop_independence(cx, E.SAMPLES)
     n = 0
     for q, d in (('excel_ui.add_beads_stats', 'beads_samples'), ('excel_ui.add_samples_stats', 'samples'),
                  ('excel_ui.generate_histograms_table', 'samples')):
